@@ -801,7 +801,10 @@ func (v *Protocol) WriteMessage(m *Message) (err error) {
 
 	// The chunk size we announced to the peer applies to the chunks we send after it.
 	if m.MessageType == MessageTypeSetChunkSize && len(m.Payload) >= 4 {
-		v.output.opt.chunkSize = binary.BigEndian.Uint32(m.Payload)
+		// The chunk size is at least 1, never chunk with 0.
+		if size := binary.BigEndian.Uint32(m.Payload); size > 0 {
+			v.output.opt.chunkSize = size
+		}
 	}
 
 	return
